@@ -67,6 +67,18 @@ def zschema(package, byte_order, hdr_bl="uint16"):
                        G("wide", 13, dimensionType="dim64", fields=[F("a", 1, "uint16")],
                          groups=[G("leaf", 14, fields=[F("b", 1, "uint8")])])],
                data=[D("d32", 20, "var32"), D("d64", 21, "var64")]))
+    # three levels, the inner group NOT flat (it carries data / a sub-group), outer and inner block lengths
+    # differ, sibling after the nested group: the per-group state of a walk must be restored after each
+    # nested group (shapes with 2 outer entries are in every tier)
+    m.append(G("zdeep", 4, fields=[F("a", 1, "uint16")],
+               groups=[G("outer", 10, blockLength=8, fields=[F("x", 1, "uint32")],
+                         groups=[G("inner", 11, dimensionType="dim8", fields=[F("y", 1, "uint16")],
+                                   data=[D("d", 12, "var8")]),
+                                 G("inner2", 13, fields=[F("z", 1, "uint8")], blockLength=3,
+                                   groups=[G("leaf", 14, dimensionType="dim8", fields=[F("w", 1, "uint8")])])]),
+                       G("after", 15, dimensionType="dim32", fields=[F("b", 1, "uint32")],
+                         data=[D("ad", 16, "var16")])],
+               data=[D("tail", 20, "var16")]))
     # only data, every length width
     m.append(G("zdata", 3, fields=[F("k", 1, "uint32")],
                data=[D("a", 1, "var8"), D("b", 2, "var16"), D("c", 3, "var32"), D("d", 4, "var64")]))
